@@ -3,6 +3,7 @@ package g10sol
 import (
 	"context"
 	"fmt"
+	"hash/fnv"
 	"io"
 	"strconv"
 	"strings"
@@ -64,6 +65,11 @@ type Scenario struct {
 	// matching, opening streams) has happened before a directive of stage k+1
 	// exists. Order is always the concatenation of the stages.
 	Stages [][][2]int `json:"stages,omitempty"`
+	// Pre (dynamic scenarios only; optional): requests registered BEFORE the links
+	// appear, like the requests of a static scenario; they are not part of Order.
+	// Only requests without a counterpart on the other node are put here (fillers):
+	// the 'if' direction is never demanded for them.
+	Pre [][2]int `json:"registered_before_links,omitempty"`
 	// Note names the generator family (evidence / witnesses only).
 	Note string `json:"note,omitempty"`
 	// Modes (optional, parallel to Dirs) says how the harness-side consumer /
@@ -158,6 +164,9 @@ func (s *Scenario) Sig() string {
 	fmt.Fprintf(&b, "links=%d swap=%v", s.Links, s.SwapIDs)
 	if s.Dynamic {
 		fmt.Fprintf(&b, " dynamic%v", s.Order)
+		if len(s.Pre) > 0 {
+			fmt.Fprintf(&b, " pre-registered=%d", len(s.Pre))
+		}
 		if len(s.Stages) > 0 {
 			fmt.Fprintf(&b, " stages%v", s.Stages)
 		}
@@ -175,7 +184,21 @@ func (s *Scenario) Sig() string {
 	}
 	for n := 0; n < 2; n++ {
 		fmt.Fprintf(&b, " N%d:", n)
+		if s.IsMany() {
+			// filler requests of a many-solicitations scenario are summarised
+			nf, h := 0, fnv.New64a()
+			for _, d := range s.Dirs[n] {
+				if strings.HasPrefix(d.P, FillPrefix) {
+					nf++
+					h.Write([]byte(d.String()))
+				}
+			}
+			fmt.Fprintf(&b, "[%d fillers #%x]", nf, h.Sum64())
+		}
 		for di, d := range s.Dirs[n] {
+			if s.IsMany() && strings.HasPrefix(d.P, FillPrefix) {
+				continue
+			}
 			b.WriteString(d.String())
 			if m := s.Mode(n, di); m != ModeRecord {
 				b.WriteString("<" + modeNames[m] + ">")
@@ -631,6 +654,17 @@ func StartTwoNode(scen *Scenario, idA, idB, wrong peer.ID) (*TwoNode, string) {
 		if !t.waitIdle(nil) {
 			t.Stop()
 			return nil, "directives did not become idle (watchdog)"
+		}
+	} else if len(scen.Pre) > 0 {
+		for _, w := range scen.Pre {
+			if e := t.addDirective(w[0], w[1]); e != "" {
+				t.Stop()
+				return nil, e
+			}
+		}
+		if !t.waitIdle(scen.Pre) {
+			t.Stop()
+			return nil, "pre-registered directives did not become idle (watchdog)"
 		}
 	}
 	return t, ""
